@@ -357,7 +357,7 @@ func shuffled(t *rapid.T, r *ref.RHS) *ref.RHS {
 func TestPrecedenceLevels(t *testing.T) {
 	rec.Rule(rule + ruleMore)
 	opts := gen.SpecOpts{MaxRules: 3, Depth: 3, Literals: []string{"a", "b", "+", "-", "*"}, Tokens: []string{"TK", "NUM", "ID"}, Directives: 6, RuleHandles: true, DupRules: true, EmptyRules: true}
-	rec.Check(t, 3000, 120000, func(t *rapid.T) {
+	rec.Check(t, 8000, 120000, func(t *rapid.T) {
 		m := gen.Spec(t, opts)
 		ruleHandles, levels, named := 0, 0, 0
 		for _, d := range m.Decls {
